@@ -298,8 +298,57 @@ fn deps_case(dialect: &str, shadow: bool) -> Option<Value> {
     res
 }
 
+// ---- classic disassemble -> assemble round trip, every operator-set version
+fn chk_disasm(clvm_bytes: &[u8]) -> Option<Value> {
+    use chialisp::classic::clvm_tools::binutils::{assemble, disassemble};
+    let data = clvm_bytes.to_vec();
+    let res = catch_unwind(move || {
+        for ver in [0usize, 1, 2] {
+            let mut a = clvmr::Allocator::new();
+            let n = match clvmr::serde::node_from_bytes(&mut a, &data) { Ok(n) => n, Err(_) => return None };
+            let text = disassemble(&a, n, Some(ver));
+            match assemble(&mut a, &text) {
+                Err(e) => return Some((ver, text, format!("assembler rejected it: {:?}", e))),
+                Ok(m) => { let back = clvmr::serde::node_to_bytes(&a, m).unwrap(); if back != data { return Some((ver, text, format!("re-assembled to {:?}", back))); } }
+            }
+        }
+        None
+    });
+    match res {
+        Ok(Some((ver, text, o))) => Some(hit(json!({"clvm_bytes": clvm_bytes, "version": ver}), format!("text {:?} assembles back to the same bytes", text), o, "binutils::disassemble then binutils::assemble")),
+        Err(_) => Some(hit(json!({"clvm_bytes": clvm_bytes}), "no panic".into(), "panic".into(), "disassemble/assemble panicked")),
+        _ => None,
+    }
+}
+fn disasm_inputs() -> Vec<Vec<u8>> {
+    let mut atoms: Vec<Vec<u8>> = vec![vec![]];
+    for b in 0u16..=0xff { atoms.push(vec![b as u8]); }
+    for hi in 0u16..=0xff { for lo in [0x00u8, 0x01, 0x22, 0x27, 0x5c, 0x61, 0x7f, 0x80, 0xff] { atoms.push(vec![hi as u8, lo]); } }
+    for c in [b'"', b'\'', b'\\', b' ', b'#', b'(', b')', b'a', 0x00u8, 0x7f, 0x80] {
+        atoms.push(vec![b'a', c, b'b']); atoms.push(vec![c, b'a', b'b']); atoms.push(vec![b'a', b'b', c]); atoms.push(vec![c, c, c]);
+    }
+    atoms.push(b"hello world".to_vec()); atoms.push(vec![0x13, 0xd6, 0x1f, 0x00]); atoms.push(vec![0xff; 5]); atoms.push(vec![0, 0, 0, 1]);
+    let mut out = vec![];
+    for at in &atoms {
+        let mut a = clvmr::Allocator::new();
+        let n = a.new_atom(at).unwrap();
+        out.push(clvmr::serde::node_to_bytes(&a, n).unwrap());
+        // also in operator position and as an argument
+        let nil = a.nil();
+        let l = a.new_pair(n, nil).unwrap();
+        out.push(clvmr::serde::node_to_bytes(&a, l).unwrap());
+        let ll = a.new_pair(l, n).unwrap();
+        out.push(clvmr::serde::node_to_bytes(&a, ll).unwrap());
+    }
+    out
+}
+
 pub fn search(name: &str, _seed: u64) -> Value {
     match name {
+        "disassemble" | "ir_for_atom" | "has_oversized_sign_extension" | "consume_quoted" | "pybytes_repr" | "interpret_atom_value" | "assemble" => {
+            for d in disasm_inputs() { if let Some(v) = chk_disasm(&d) { return v; } }
+            nf("disassemble/assemble round trip holds for the enumerated atoms (all 1-byte, 2304 2-byte, special 3-byte) alone, as operator and as tail, versions 0..2")
+        }
         "recurse_dependencies" | "gather_dependencies" | "read_new_file" | "deps" => {
             for dialect in ["*standard-cl-21*", "*standard-cl-23*"] { for shadow in [false, true] {
                 if let Some(v) = deps_case(dialect, shadow) { return v; }
@@ -344,6 +393,7 @@ pub fn search(name: &str, _seed: u64) -> Value {
 
 pub fn run_input(name: &str, input: &Value) -> Value {
     match name {
+        "disassemble" | "ir_for_atom" | "consume_quoted" | "pybytes_repr" => chk_disasm(&bytes(&input["clvm_bytes"])).unwrap_or_else(|| nf("input does not violate the contract on this tree")),
         "advance" | "srcloc" => chk_advance(input["line"].as_u64().unwrap_or(1) as usize, input["col"].as_u64().unwrap_or(1) as usize, input["ch"].as_u64().unwrap_or(0) as u8).unwrap_or_else(|| nf("input does not violate the contract on this tree")),
         "convert_from_clvm_rs" | "convert_to_clvm_rs" | "convert" | "sha256tree" => chk_convert(&bytes(&input["clvm_bytes"])).unwrap_or_else(|| nf("input does not violate the contract on this tree")),
         "path_optimizer" | "sub_args" | "path_from_args" | "optimize_sexp" | "path_number_from_u8" | "new" | "add" | "first" | "rest" | "as_path" | "seems_constant" =>
